@@ -58,6 +58,10 @@ def explore(prog, name, budget=300000):
     for (rv, st, path) in res:
         dirty, c1, cf, nul = st.pl[:4]
         wrote, slack = st.pl[7], st.pl[8]
+        term = st.pl[10]
+        ret_at_term = None
+        if rv is not None and rv[0] == "p" and rv[1] == plugin.root and term is not None:
+            ret_at_term = eng.decide(("cmp", "eq", rv[2], term), facts)
         facts = st.facts
         ex = []
         dl = Lin.atom("&" + plugin.root)
@@ -105,11 +109,11 @@ def explore(prog, name, budget=300000):
             err = True if rv[1] == "null" else (False if eng.decide(("cmp", "eq", eng.as_lin(rv), Lin.const(0)), facts) is False else None)
         line = exit_line(fn, path)
         msg = exit_message(fn, path)
-        key = (d_, err, dirty, c1, cf, nul, tuple(ex), msg, wrote, slack)
+        key = (d_, err, dirty, c1, cf, nul, tuple(ex), msg, wrote, slack, ret_at_term, term is not None)
         if key in seen:
             continue
         seen.add(key)
-        outs.append(dict(ret=d_, err=err, dirty=dirty, clr_first=c1, clr_full=cf, nul=nul, wrote=wrote, slack=slack, exempt=ex, line=line, msg=msg, path=path[-10:] if path else None))
+        outs.append(dict(ret=d_, err=err, dirty=dirty, clr_first=c1, clr_full=cf, nul=nul, wrote=wrote, slack=slack, ret_at_term=ret_at_term, has_term=term is not None, exempt=ex, line=line, msg=msg, path=path[-10:] if path else None))
     return dict(outcomes=outs, n_paths=len(res), states=eng.nstates, conv=conv, file=fn.file, unit=plugin.unit, precision=eng.precision)
 
 
